@@ -99,10 +99,19 @@ def checkWmcLine (kvs : List (String × String)) (rhs : String) : String := Id.r
       let some c := cS.toNat? | return "FAIL PARSE smk count"
       if ttString n t.eval != ttString n d.eval then return s!"FAIL SPEC smoothing over the first {k} variables changed the function"
       let wantK := order.take k
-      if !(t.paths.all (· == wantK)) then
-        return s!"FAIL SPEC smoothing over the first {k} variables: a path tests {(t.paths.find? (· != wantK)).getD []} instead of {wantK}"
-      let specK := wsum SB wantK (weightsOf wa) d.eval a0
-      if c != specK then return s!"FAIL SPEC count of the diagram smoothed over the first {k} variables is {c}, brute-force weighted sum over those variables {specK}"
+      let k0 := ((lookup okv "k0").bind String.toNat?).getD 0
+      if k ≥ k0 then
+        -- the diagram lives inside the first k levels: every path tests exactly those, in order
+        if !(t.paths.all (· == wantK)) then
+          return s!"FAIL SPEC smoothing over the first {k} variables: a path tests {(t.paths.find? (· != wantK)).getD []} instead of {wantK}"
+        let specK := wsum SB wantK (weightsOf wa) d.eval a0
+        if c != specK then return s!"FAIL SPEC count of the diagram smoothed over the first {k} variables is {c}, brute-force weighted sum over those variables {specK}"
+      else
+        -- the diagram also tests deeper variables: every path tests each of the first k variables
+        -- exactly once, in order, and only deeper ones afterwards
+        let okPath (p : List Nat) : Bool := p.take k == wantK && (p.drop k).all fun v => decide (lvl v ≥ k)
+        if !(t.paths.all okPath) then
+          return s!"FAIL SPEC smoothing over the first {k} variables of a deeper diagram: a path tests {(t.paths.find? (fun p => !okPath p)).getD []}, which does not start with {wantK}"
       if Bdd.smooth lvl varAt d k != t then return s!"FAIL MODEL smooth over {k} variables"
     | _ => return "FAIL PARSE smk entry"
   -- reals (dyadic weights k/8, 1-k/8)
